@@ -85,6 +85,7 @@ func (p *pendingRequests) loadAndDelete(stream int16) Request {
 func (p *pendingRequests) closing(err error) {
 	p.pending.Range(func(key, value interface{}) bool {
 		request := value.(Request)
+		vhook("closing.notify", p, request)
 		request.OnClose(err)
 		return true
 	})
